@@ -21,8 +21,10 @@ RULE = ("an execution = (framework, component configuration, sequence of per-att
         "outcome/stop tree; transitions = connection attempts executed; non-trivial = history with "
         ">= 2 attempts or >= 1 joined session")
 ASSUMPTIONS = [
-    "histories of at most 4 (quick) / 6 (thorough: 5 for the widest families) attempts per execution; "
-    "max_retries=-1 is cut by that horizon",
+    "histories of at most 4 attempts over the full alphabet for 5 core transport sets and at most 3 for the "
+    "whole configuration grid (quick); at most 5 for 19 transport sets, 4 for the whole grid and 6 for six "
+    "small configurations (thorough); stop() family: depth 3 (quick) / 3-4 (thorough); delay family: depth 5 "
+    "/ 5-6 over {refused, abort, lost, goodbye}; max_retries=-1 is cut by that horizon",
     "outcome alphabet: refused, hs_reject (HTTP 400 / bad RawSocket magic), hs_drop, abort "
     "(wamp.error.no_such_realm), lost (unclean TCP drop 7 virtual seconds after the join), goodbye "
     "(router GOODBYE wamp.close.normal), leave (session.leave(), router answers goodbye_and_out), "
@@ -116,28 +118,34 @@ def make_jobs(tier):
             pairs((R, W), [(0, 1), (1, 0)]) + unlimited[:1] + triples([(1, 0, 2), (0, 1, 0)])
         for ts in deep5:
             for main in (False, True):
-                for f in (None, "refused"):
-                    plan.append(("A", _cfg(ts, main, f, 5), ALPHA_FULL, False))
+                plan.append(("A", _cfg(ts, main, None, 5), ALPHA_FULL, False))
+        for ts in ([T(W, 1)], [T(R, 2)], [T(W, 1), T(R, 0)], [T(W, 0), T(R, 1), T(W, 0)]):
+            for main in (False, True):
+                plan.append(("A", _cfg(ts, main, "refused", 5), ALPHA_FULL, False))
         seen = [json_key(ts) for ts in deep5]
         deep4 = pairs((W, R), ALL9) + pairs((R, W), ALL9) + unlimited + triples(ALL27) + \
             [[T(R, 1), T(R, 0), T(W, -1)], [T(R, 2), T(W, 0), T(R, 1)]]
-        for ts in deep4:
-            if json_key(ts) in seen:
-                continue
+        for i, ts in enumerate(deep4):
             for main in (False, True):
-                for f in (None, "refused"):
-                    plan.append(("A", _cfg(ts, main, f, 4), ALPHA_FULL, False))
-        for ts in singles + pairs((W, R), [(0, 1), (1, 0), (1, 1), (2, 0)]) + triples([(1, 0, 2), (0, 1, 0)]):
+                if json_key(ts) not in seen:
+                    plan.append(("A", _cfg(ts, main, None, 4), ALPHA_FULL, False))
+                if i % 2 == 0:
+                    plan.append(("A", _cfg(ts, main, "refused", 4), ALPHA_FULL, False))
+        for ts in [[T(W, 1)], [T(R, 0)], [T(R, 2)], [T(W, -1)]] + pairs((W, R), [(0, 1), (1, 0)]) + \
+                triples([(1, 0, 2), (0, 1, 0)]):
             for main in (False, True):
                 for f in ("never", "abort", "always"):
                     plan.append(("A", _cfg(ts, main, f, 4), ALPHA_FULL, False))
         for ts, main in (([T(W, 1)], True), ([T(W, 1)], False), ([T(R, 0)], True), ([T(R, 0)], False),
                          ([T(R, 1)], False), ([T(W, 0), T(R, 0)], True)):
             plan.append(("A", _cfg(ts, main, None, 6), ALPHA_FULL, False))
-        bsets = [[T(W, 0)], [T(W, 1)], [T(R, 0)], [T(R, 1)], [T(W, 1), T(R, 0)], [T(R, 0), T(W, 1)]]
-        for ts in bsets:
-            for main in (False, True):
-                plan.append(("B", _cfg(ts, main, None, 4), ALPHA_FULL, True))
+        for ts, main in (([T(W, 1)], True), ([T(R, 0)], True), ([T(W, 1), T(R, 0)], True),
+                         ([T(R, 0), T(W, 1)], False)):
+            plan.append(("B", _cfg(ts, main, None, 4), ALPHA_FULL, True))
+        for ts, main in (([T(W, 1)], False), ([T(R, 0)], False), ([T(W, 1), T(R, 0)], False),
+                         ([T(R, 0), T(W, 1)], True), ([T(W, 0)], True), ([T(W, 0)], False),
+                         ([T(R, 1)], True), ([T(R, 1)], False)):
+            plan.append(("B", _cfg(ts, main, None, 3), ALPHA_FULL, True))
         for ts in ([T(W, 2)], [T(R, -1)], [T(W, 0), T(R, 1), T(W, 0)], [T(W, -1), T(R, 1)]):
             for main in (False, True):
                 for f in (None, "refused"):
@@ -147,12 +155,14 @@ def make_jobs(tier):
         for z in (-3.0, 0.0, 3.0):
             if d[2] == 0.0 and z != 0.0:
                 continue
-            csets = [[T(W, 3, d)], [T(R, 2, d), T(W, 1, d)]]
+            csets = [([T(W, 3, d)], 6 if thorough else 5, (False, True) if thorough else (True,)),
+                     ([T(R, 2, d), T(W, 1, d)], 6 if thorough else 5, (True,))]
             if thorough:
-                csets += [[T(R, -1, d)], [T(W, 1, d), T(R, 2, DELAY_GRID[1]), T(R, 0, d)]]
-            for ts in csets:
-                for main in ((False, True) if thorough else (True,)):
-                    plan.append(("C", _cfg(ts, main, None, 6 if thorough else 5, z), ALPHA_DELAY, False))
+                csets += [([T(R, -1, d)], 5, (True,)),
+                          ([T(W, 1, d), T(R, 2, DELAY_GRID[1]), T(R, 0, d)], 5, (False, True))]
+            for ts, depth, mains in csets:
+                for main in mains:
+                    plan.append(("C", _cfg(ts, main, None, depth, z), ALPHA_DELAY, False))
     jobs = []
     for fam, cfg, alphabet, stop in plan:
         split = cfg["horizon"] >= (5 if thorough else 4) or (stop and cfg["horizon"] >= 3)
@@ -295,8 +305,6 @@ def judge(cfg, obs, fw, stats=None):
     for e in errs:
         if any(m in e for m in _NONE_COMPLETE) and ghost:
             continue        # the same defect as done-twice|complete-after-done
-        if e.startswith("log: Unhandled error in Deferred"):
-            continue        # header line of the failure that follows
         if "Task was destroyed but it is pending" in e:
             continue        # artefact of tearing down an execution cut by the horizon
         name = e.split(":", 1)[0]
